@@ -50,7 +50,7 @@ GAINS = {"unit": (1.0, 1.0, 1.0, 1.0), "g1": (1e-2, 1e2, -1e-1, 1.0), "g2": (1e2
          "g3": (-1e-1, 1.0, 1e-2, 1e2)}
 METHODS = ("cov_mm", "dat")
 NREC = (1000, 1300, 900, 1100)
-FS = (100.0, 10.0)
+FS = (102.4, 12.5)           # non-integer sampling rates
 CLASSES = (("raises", "raises"), ("table-shape", "layout"), ("shape-dim", "layout"), ("mpe-type", "layout"),
            ("mpe-shape", "layout"), ("count", "poles"), ("pairing", "poles"), ("lam", "poles"), ("fn", "poles"),
            ("xi", "poles"), ("mpe-fn", "poles"), ("mpe-xi", "poles"), ("mac", "shape"), ("mpe-mac", "shape"),
